@@ -304,6 +304,9 @@ def ty_sx(w, t):
         return "(" + " ".join(["lit"] + [terms.obj_sx(v) for v in t[1]]) + ")"
     if k == "union":
         return "(" + " ".join(["union"] + [un_nt(m) for m in t[1]]) + ")"
+    if k == "sunion":
+        return "(" + " ".join(["spill-union"] + [("(newtype %s)" % m[1]) if (not isinstance(m, str) and m[0] == "nt")
+                                                  else ty_sx(w, m) for m in t[1]]) + ")"
     if k == "tup":
         return "(" + " ".join(["tup"] + [ty_sx(w, x) for x in t[1]]) + ")"
     if k in MAP_KINDS:
@@ -1236,24 +1239,34 @@ def one_case(chk, drv, R, w, fmt, mod, cfg, t, x, corr_fail, tag="", model=True)
                         corr_fail.append(("STP", case, "structure(decoded) differs: impl=" + terms.canon_sx(y_abs)[:200] + " model=" + rs[:200]))
     # ---- oracle verdict
     if bad:
-        t2, x2, bad2 = minimise(R, w, fmt, mod, cfg, t, x)
-        if bad2 is None:
-            t2, x2, bad2 = t, x, bad
-        res2 = run_impl(R, fmt, mod, cfg, t2, x2)
-        mcase = {"fmt": fmt, "cfg": cfg, "world": w, "ty": t2, "x": x2, "minimal": True, "original": {"ty": t, "x": x}}
-        mcase.update(case_stage(bad2, res2))
-        if not isinstance(t2, str) and t2[0] == "counter":
-            t3 = ("dict", t2[1], "int")
-            try:
-                r3 = run_impl(R, fmt, mod, cfg, t3, x2)
-                mcase["dict_variant_passes"] = check_oracle(w, cfg, t3, x2, r3) is None
-            except Exception:  # noqa: BLE001
-                mcase["dict_variant_passes"] = False
-        if not isinstance(t2, str) and t2[0] == "cls" and w["classes"][t2[1]].get("strann"):
-            mcase["plain_annotations_pass"] = plain_annotations_pass(w, fmt, mod, cfg, t2, x2)
-        chk.violation(f"C16 oracle [{fmt}{' +float hooks' if cfg.get('uhook') is not None else ''}] {bad2[1]} "
-                      f"[T={ty_sx(w, t2)} x={terms.canon_sx(x2)[:200]}]", mcase)
+        report(chk, R, w, fmt, mod, cfg, t, x, bad)
     return bad
+
+
+def report(chk, R, w, fmt, mod, cfg, t, x, bad, stream=None):
+    """an oracle failure: minimise, describe the minimal case for the finding predicates, record"""
+    t2, x2, bad2 = minimise(R, w, fmt, mod, cfg, t, x)
+    if bad2 is None:
+        t2, x2, bad2 = t, x, bad
+    res2 = run_impl(R, fmt, mod, cfg, t2, x2)
+    mcase = {"fmt": fmt, "cfg": cfg, "world": w, "ty": t2, "x": x2, "minimal": True, "original": {"ty": t, "x": x}}
+    if stream:
+        mcase["stream"] = stream
+    mcase.update(case_stage(bad2, res2))
+    t2 = un_nt(t2)
+    if not isinstance(t2, str) and t2[0] == "counter":
+        t3 = ("dict", t2[1], "int")
+        try:
+            r3 = run_impl(R, fmt, mod, cfg, t3, x2)
+            mcase["dict_variant_passes"] = check_oracle(w, cfg, t3, x2, r3) is None
+        except Exception:  # noqa: BLE001
+            mcase["dict_variant_passes"] = False
+    if not isinstance(t2, str) and t2[0] == "cls" and w["classes"][t2[1]].get("strann"):
+        mcase["plain_annotations_pass"] = plain_annotations_pass(w, fmt, mod, cfg, t2, x2)
+    opts = opts_sx(cfg)
+    chk.violation(f"C16 oracle [{(stream + ' stream, ') if stream else ''}{fmt}{' +float hooks' if cfg.get('uhook') is not None else ''}"
+                  f"{'' if opts == '00-' else ' options=' + opts}] {bad2[1]} "
+                  f"[T={ty_sx(w, t2)} x={terms.canon_sx(x2)[:200]}]", mcase)
 
 
 def plain_annotations_pass(w, fmt, mod, cfg, t, x):
@@ -1376,8 +1389,8 @@ def uses_nonnative_union(w, t, fmt, _seen=None):
         return any(un_nt(m) not in NATIVE[fmt] for m in t[1])
     if k in ("enum", "lit", "nt"):
         return False
-    if k == "tup":
-        return any(uses_nonnative_union(w, x, fmt) for x in t[1])
+    if k in ("tup", "sunion"):
+        return any(uses_nonnative_union(w, x, fmt) for x in t[1] if not isinstance(x, str))
     if k in MAP_KINDS:
         return uses_nonnative_union(w, t[1], fmt) or uses_nonnative_union(w, t[2], fmt)
     if k in ("cls", "td"):
